@@ -409,6 +409,16 @@ pub fn run_c11(a: &Args) {
             }
             len += if len + 6 >= n && len <= n + 6 { 1 } else { step };
         }
+        // two-byte sequences (escaped caret, codepage markers, colour marker, double-byte characters behind a marker) and a lone
+        // caret starting at every offset around the cut: the cut is at a byte offset, whatever it falls into
+        for seq in ["^^", "^J", "^G", "^8", "^L", "^", "^^^^", "\u{65e5}", "\u{448}\u{65e5}", "\u{e9}^^"] {
+            for p0 in n.saturating_sub(6)..=n + 1 {
+                let mut text: String = (0..p0).map(|i| (b'A' + (i % 26) as u8) as char).collect();
+                text.push_str(seq); text.push_str("BCDE");
+                if let Some((c, i)) = check(compressed, ki, idx, &text, &mut st) { out.case(&c, &i); }
+                st.evaluations += 1; st.bump("sequence straddling the cut");
+            }
+        }
         // embedded NUL: decoding stops at the first NUL
         let _ = check(compressed, ki, idx, "ab", &mut st);
     } } }
